@@ -412,6 +412,113 @@ def _(M, a):
     return a[0].replace(a[1], a[2], a[3] if a[3] >= 0 else -1) if a[3] != 0 else a[0]
 
 
+def _bytes_of(x):
+    if x is None:
+        return []
+    if isinstance(x, str):
+        return [ord(c) for c in x]
+    items = list(x.items())
+    need_conc(*items)
+    return items
+
+
+INTR['bytes.Equal'] = lambda M, a: _bytes_of(a[0]) == _bytes_of(a[1])
+INTR['bytes.Compare'] = lambda M, a: (_bytes_of(a[0]) > _bytes_of(a[1])) - (_bytes_of(a[0]) < _bytes_of(a[1]))
+INTR['bytes.HasPrefix'] = lambda M, a: _bytes_of(a[0])[:len(_bytes_of(a[1]))] == _bytes_of(a[1])
+INTR['bytes.HasSuffix'] = lambda M, a: (lambda x, y: len(y) == 0 or x[-len(y):] == y)(_bytes_of(a[0]), _bytes_of(a[1]))
+INTR['bytes.Contains'] = lambda M, a: bytes(_bytes_of(a[1])) in bytes(_bytes_of(a[0]))
+
+
+# path/filepath and path on concrete strings (POSIX separators, Go's Clean rules)
+def _go_clean(p):
+    import posixpath
+    if p == '':
+        return '.'
+    r = posixpath.normpath(p)
+    if r.startswith('//'):
+        r = '/' + r.lstrip('/')
+    return r
+
+
+def _fp_join(M, a):
+    items = [] if a[0] is None else list(a[0].items())
+    need_conc(*items)
+    items = [x for x in items if x != '']
+    return _go_clean('/'.join(items)) if items else ''
+
+
+def _fp_base(M, a):
+    need_conc(a[0])
+    p = a[0]
+    if p == '':
+        return '.'
+    p = p.rstrip('/')
+    if p == '':
+        return '/'
+    return p.rsplit('/', 1)[-1]
+
+
+def _fp_dir(M, a):
+    need_conc(a[0])
+    p = a[0]
+    i = p.rfind('/')
+    return _go_clean(p[:i + 1])
+
+
+def _fp_ext(M, a):
+    need_conc(a[0])
+    p = a[0]
+    for i in range(len(p) - 1, -1, -1):
+        if p[i] == '/':
+            break
+        if p[i] == '.':
+            return p[i:]
+    return ''
+
+
+for _pk in ('path/filepath', 'path'):
+    INTR[_pk + '.Join'] = _fp_join
+    INTR[_pk + '.Base'] = _fp_base
+    INTR.setdefault(_pk + '.Dir', _fp_dir)
+    INTR[_pk + '.Ext'] = _fp_ext
+    INTR[_pk + '.Clean'] = lambda M, a: (need_conc(a[0]), _go_clean(a[0]))[1]
+    INTR[_pk + '.IsAbs'] = lambda M, a: (need_conc(a[0]), a[0].startswith('/'))[1]
+
+
+# strings.Replacer: an opaque pointer whose cell holds the (old, new) pairs; Replace follows the documented algorithm
+# (matches are taken in the order they appear in the target, without overlap; at one position the pairs are tried in
+# argument order)
+@intr('strings.NewReplacer')
+def _(M, a):
+    items = [] if a[0] is None else list(a[0].items())
+    need_conc(*items)
+    if len(items) % 2:
+        raise GoPanic('panic', 'strings.NewReplacer: odd argument count', '')
+    return Ptr(Cell([list(zip(items[0::2], items[1::2]))], tag='strings.Replacer'))
+
+
+@intr('(*strings.Replacer).Replace')
+def _(M, a):
+    pairs = a[0].cell.v[0]
+    s = a[1]
+    need_conc(s)
+    out = []
+    i = 0
+    while i <= len(s):
+        for old, new in pairs:
+            if old == '':
+                continue
+            if s.startswith(old, i):
+                out.append(new)
+                i += len(old)
+                break
+        else:
+            if i < len(s):
+                out.append(s[i])
+            i += 1
+    return ''.join(out)
+
+
 @intr('strings.Join')
 def _(M, a):
     items = [] if a[0] is None else a[0].items()
